@@ -1,8 +1,8 @@
 """C09 — landscape arithmetic is pointwise and leaves the operands untouched.
 
 Theorems: lean/PersimVerif/Props/C09.lean over the model lean/PersimVerif/Model/PLArith.lean (any linear
-ordered field).  Tie: histories of the real operators (`+ - neg * rmul /`, `snap_pl`, `lc_approx`,
-`average_approx`) on landscapes built by the real constructors, replayed by the model at `Rat` from the
+ordered field).  Tie: histories of the real operators (`+ - neg * rmul /`, the augmented assignments `+= -= *= /=` on
+results of earlier operations, `snap_pl`, `lc_approx`, `average_approx`) on landscapes built by the real constructors, replayed by the model at `Rat` from the
 *leaves* (driver ops `pla.xhist`, `pla.ghist`, `pla.xexpr`, `pla.xdenote`, `pla.gexpr`, `pla.gdenote`).
 [T]: (a) the statement's pointwise laws and rejection rule evaluated on the real code alone with exact
 rational arithmetic (this is also the failing-input search when code and model disagree);
@@ -30,8 +30,11 @@ What is compared how
     `snap_pl` output;  error kinds (exception class + which check fired) exactly against the model (correspondence).
 """
 import contextlib
+import copy
 import io
 import math
+import operator
+import types
 from bisect import bisect_left
 from fractions import Fraction as Fr
 import numpy as np
@@ -41,11 +44,13 @@ from ..common import enc, ask, HarnessError
 from .. import corethm
 
 LEVEL = "proof"
-RULE = ("histories of 0-12 operations over 2-4 shared operands (results are reused as operands); exact landscapes "
+RULE = ("histories of 0-12 operations over 2-4 shared operands (results are reused as operands; about one operation in ten is a "
+        "Python augmented assignment x += y / x -= y / x *= c / x /= c, mostly on the result of an earlier operation); exact landscapes "
         "from real-constructor diagrams (0-5 bars per degree, ties, duplicates, zero-length bars, trailing inf bar) and "
         "from arbitrary critical points (1-4 depths, sign changes, repeated points, single-point depths); grid landscapes "
         "from real-constructor diagrams and from arbitrary value arrays on shared and on deliberately different grids; "
-        "coordinates lattice/half/dyadic(2^-30..2^20)/half-integers at offset 2^17/decimal/uniform; scalars ints, dyadic, 1/3, 2^+-20, 0, -0.0, "
+        "coordinates lattice/half/dyadic(2^-30..2^20)/half-integers at offset 2^17/decimal/uniform, and (exact landscapes, 8% of the "
+        "histories) a common offset of 1e12..1e13 with bars of length 0.1..10 at full float resolution; scalars ints, dyadic, 1/3, 2^+-20, 0, -0.0, "
         "non-numbers; malformed operands mixed in (other hom_deg, other grid, empty depth list, empty landscape, "
         "coefficient lists of wrong length). non-trivial = a history with at least one successful binary operation or "
         "snap/lc/avg; distinct by digest of (leaf specs, ops)")
@@ -82,7 +87,22 @@ ASSUMPTIONS = [
     "(an empty landscape list together with non-numeric coefficients is numpy dtype resolution on empty arrays and is not generated)",
     "np.interp / np.linspace behave as the model's interp/linspace in exact arithmetic (compared on every snap)",
     "sharing of depth lists between a result of exact +/- and an operand (union_crit_pairs appends the operand's own "
-    "list) is counted, not failed: no operation of the property mutates critical_pairs in place",
+    "list) is counted, not failed: no operation of the reference tree mutates critical_pairs in place; an operation that does "
+    "(an in-place `*=` on such a result) changes the operand's public attribute and is a failing input through the clause below",
+    "augmented assignment (`x += y`, `x -= y`, `x *= c`, `x /= c`) is one of the ways to write the property's operations: its value "
+    "must be the sum / difference / multiple / quotient of the OLD value of x (model: the plain operation into a new register; the "
+    "same laws), and every live landscape OTHER than the object x must be observably unchanged.  Whether the code builds a new "
+    "object (the reference tree: no in-place methods, Python falls back to the binary operator) or modifies x and returns it is "
+    "not fixed by the statement: when the returned object IS x, every register holding that object is retired (replaced by a "
+    "detached copy of the old attributes, never used as an operand again - the name now means the new value) and x is exempt "
+    "from the unchanged comparison of that one operation; an `x op= y` that raises must leave x unchanged like any operand",
+    "the class 'large common offset' is restricted on the INPUT side to diagrams whose candidate breakpoints (births, deaths, "
+    "midpoints (b_i + d_j)/2) are pairwise equal or more than 4 ulp apart: for closer ones the reference CONSTRUCTOR rounds two "
+    "midpoints to one float and returns a depth with a zero-width jump (not a function; T = 5095418622720.0, bars "
+    "[[T+0.264, T+5.665], [T+0.266, T+8.946]]), on which exact +/- loses the jump (1 ulp of the abscissae, 2e-4 of the heights). "
+    "That is rounding of the abscissae in the constructor, not a failure of the arithmetic on functions; hand-made critical points "
+    "of this class have abscissae at least 0.1 apart.  On the admitted inputs the reference tree meets the pointwise law to 1e-15 "
+    "of the largest ordinate; the verdict tolerance stays 1e-9 of the largest ordinate involved",
 ]
 TRUSTED = ["the compiled driver executable is trusted as compiled by Lean's compiler, not checked by the kernel"]
 # theorems that carry a clause of the property (helpers, the bridge lemmas between the two guards, definitional restatements
@@ -178,6 +198,14 @@ def prepare(regs, op):
     """the Python arguments of one operation: (thunk calling the real code, containers handed to it)"""
     _, _, tl = _mods()
     name = op[0]
+    if is_aug(op):
+        # Python augmented assignment `x += y`, `x -= y`, `x *= c`, `x /= c` on the register x = op[1]: the in-place method
+        # if the class defines one, else the binary operator (what the statement `x op= y` does)
+        f = AUG_FN[name]
+        if name in ("add", "sub"):
+            return (lambda: f(regs[op[1]], regs[op[2]])), []
+        c = scalar_of(op[2])
+        return (lambda: f(regs[op[1]], c)), [c]
     if name == "add":
         return (lambda: regs[op[1]] + regs[op[2]]), []
     if name == "sub":
@@ -204,9 +232,41 @@ def prepare(regs, op):
     raise HarnessError("unknown op %r" % (op,))
 
 
+AUG_FN = {"add": operator.iadd, "sub": operator.isub, "mul": operator.imul, "div": operator.itruediv}
+
+
+def is_aug(op):
+    """an operation written as Python augmented assignment: ["mul", x, c, "aug"] is `x *= c` (likewise add / sub / div).
+    The marker is the last element so that everything that reads op[0], op[1], op[2] treats it as the plain operation: for
+    the model and for the laws `x *= c` IS the product of the old value of x by c, stored in a new register."""
+    return op[-1] == "aug"
+
+
+def freeze(pl):
+    """a detached copy of a landscape's attributes (not a landscape object: nothing of the library runs on it); stands in
+    for the OLD value of an object that an augmented assignment modified in place"""
+    return types.SimpleNamespace(**copy.deepcopy(vars(pl)))
+
+
+def settle_aug(regs, res, pre):
+    """after `x op= y` returned `res`: if the code worked in place (`res` is the very object x, as a class with __imul__ etc.
+    may legitimately do), every register holding that object is replaced by the frozen old value `pre` - those registers are
+    never used as operands again (Run.redirect) and only serve the comparison of the value they had.  Returns their indices."""
+    dead = [j for j, p in enumerate(regs) if p is res]
+    for j in dead:
+        regs[j] = pre
+    return dead
+
+
 def apply_op(regs, op):
-    """one operation of a history on the real code"""
-    return prepare(regs, op)[0]()
+    """one operation of a history on the real code (re-execution by the laws; `run_history` does the same step by step)"""
+    thunk = prepare(regs, op)[0]
+    if not is_aug(op):
+        return thunk()
+    pre = freeze(regs[op[1]])
+    res = thunk()
+    settle_aug(regs, res, pre)
+    return res
 
 
 def containers_view(cs):
@@ -710,7 +770,48 @@ def coord(ctx, mode, e=None):
     if mode == "far":
         # half-integers at a large offset (exact in floats): distinct abscissae that agree to 5-6 significant digits
         return 131072.0 + r.randint(0, 12) / 2.0
+    if mode == "offset":
+        return e + r.uniform(0.0, 20.0)          # `e` carries the history's common offset (see gen_offset_bars)
     return ctx.gen.coord(mode)
+
+
+def breakpoints_separated(bars):
+    """Input-side guard of the "offset" class: every breakpoint the landscape of these bars can have is a birth, a death or a
+    midpoint (b_i + d_j) / 2.  Two DISTINCT such numbers closer than a few ulp of the offset may round to the same float (or
+    swap) inside the constructor, which then returns a depth list with a zero-width jump - not a function, and outside the
+    well-formed class of the arithmetic theorems (observed on the reference tree, see gen_offset_bars).  Exact rationals."""
+    fin = [(Fr(b), Fr(d)) for b, d in bars if math.isfinite(b) and math.isfinite(d)]
+    if not fin:
+        return True
+    cand = sorted({x for b, d in fin for x in (b, d)} | {(b + d) / 2 for b, _ in fin for _, d in fin})
+    gap = 4 * Fr(math.ulp(max(abs(float(cand[0])), abs(float(cand[-1])))))
+    return all(y - x > gap for x, y in zip(cand, cand[1:]))
+
+
+def gen_offset_bars(ctx, T0, nmax=5):
+    """the class "large common offset, small non-dyadic bars": births T0 + U(0, 12) with T0 in 1e12 .. 1e13 (millisecond time
+    stamps), lengths U(0.1, 10), coordinates at the full float resolution of the offset (ulp 1.2e-4 .. 2e-3, so heights are
+    odd multiples of half an ulp and nothing is dyadic relative to the bars); duplicates and zero-length bars as elsewhere.
+    RESTRICTION (input side, breakpoints_separated): diagrams two of whose candidate breakpoints are distinct but within 4 ulp
+    are redrawn.  On the reference tree the CONSTRUCTOR rounds two such midpoints to one float and returns a depth with a
+    zero-width jump, e.g. T = 5095418622720.0, bars [[T+0.264, T+5.665], [T+0.266, T+8.946]] give depth 0 =
+    [.., (T+2.96484375, 2.70068359375), (T+2.96484375, 2.69970703125), ..]; exact +/- then drops the jump (a zero-width segment
+    has no slope) and the difference with [[T+4.036, T+5.978]] ends at -0.0009765625 instead of 0.  That is the constructor's
+    rounding at the resolution of the abscissae (C03's subject), not the arithmetic's; the arithmetic laws are claimed for
+    operands that are functions."""
+    r = ctx.rng
+    for _ in range(40):
+        bars = []
+        for _ in range(r.randint(1, nmax)):
+            if bars and r.random() < 0.15:
+                bars.append(list(r.choice(bars)))
+                continue
+            b = T0 + r.uniform(0.0, 12.0)
+            bars.append([b, b] if r.random() < 0.08 else [b, b + r.uniform(0.1, 10.0)])
+        if breakpoints_separated(bars):
+            return bars
+    b = T0 + r.uniform(0.0, 12.0)
+    return [[b, b + r.uniform(0.1, 10.0)]]
 
 
 def gen_bars(ctx, mode, e, nmax=5, allow_empty=False, diag_p=0.15, dup_p=0.2):
@@ -738,7 +839,10 @@ def gen_bars(ctx, mode, e, nmax=5, allow_empty=False, diag_p=0.15, dup_p=0.2):
 
 def gen_dgm_leaf(ctx, mode, e, hom_deg):
     r = ctx.rng
-    dgms = [gen_bars(ctx, mode, e), gen_bars(ctx, mode, e)]
+    if mode == "offset":
+        dgms = [gen_offset_bars(ctx, e), gen_offset_bars(ctx, e)]
+    else:
+        dgms = [gen_bars(ctx, mode, e), gen_bars(ctx, mode, e)]
     if r.random() < 0.15:
         dgms[hom_deg].append([coord(ctx, mode, e), math.inf])     # only a trailing infinite bar is dropped by the code
     spec = {"kind": "dgm", "dgms": dgms, "hom_deg": hom_deg}
@@ -767,6 +871,19 @@ def gen_cps_leaf(ctx, mode, e, hom_deg, exact, nonzero_ends=False):
             continue
         if u < 0.14:
             cps.append([[x, 0], [x, 0.0], [x, 0]])
+            continue
+        if mode == "offset":
+            # hand-made critical points at the large offset: abscissae at least 0.1 apart, small non-dyadic ordinates, zero ends
+            xs = [x]
+            for _ in range(r.randint(1, 7)):
+                xs.append(xs[-1] + r.uniform(0.1, 4.0))
+            d_ = [[t, r.choice([r.uniform(-5, 5), r.uniform(0.05, 5), float(r.randint(-3, 3))])] for t in xs]
+            d_[0][1] = 0
+            d_[-1][1] = 0.0
+            if r.random() < 0.2:
+                i = r.randrange(len(d_))
+                d_.insert(i, list(d_[i]))
+            cps.append(d_)
             continue
         if exact or u < 0.4:
             # a signed combination of tents: dyadic slopes, exact ordinates
@@ -805,10 +922,25 @@ def gen_cps_leaf(ctx, mode, e, hom_deg, exact, nonzero_ends=False):
     return {"kind": "cps", "cps": cps, "hom_deg": hom_deg}
 
 
+def gen_aug(ctx, exact, nleaves, nreg, pick):
+    """an augmented assignment `x *= c`, `x /= c`, `x += y`, `x -= y`; x is mostly the RESULT of an earlier operation (the
+    running sum of an average: `avg = P + Q; avg /= 2`), which may share structure with its operands"""
+    r = ctx.rng
+    x = r.randrange(nleaves, nreg) if nreg > nleaves and r.random() < 0.85 else pick()
+    kind = r.choice(["mul", "div", "mul", "div", "add", "sub"])
+    if kind in ("add", "sub"):
+        return [kind, x, pick(), "aug"]
+    return [kind, x, gen_scalar(ctx, exact, div=(kind == "div"), np_ok=True), "aug"]
+
+
 def gen_exact_history(ctx, nonzero_ends=False):
     r = ctx.rng
     mode, exact = pick_mode(ctx)
     e = r.choice([-30, -20, -3, 0, 0, 3, 20])
+    if not nonzero_ends and r.random() < 0.08:
+        # large common offset, small non-dyadic bars (gen_offset_bars); `e` carries the offset.  Never combined with
+        # non-zero end ordinates (the known finding is attributed on its own input classes only)
+        mode, exact, e = "offset", False, r.uniform(1e12, 1e13)
     nleaves = r.randint(2, 4)
     leaves = []
     for i in range(nleaves):
@@ -826,9 +958,11 @@ def gen_exact_history(ctx, nonzero_ends=False):
     ops = []
     nreg = nleaves
     for _ in range(nops):
-        kind = r.choice(["add", "add", "add", "sub", "sub", "neg", "mul", "rmul", "div"])
+        kind = r.choice(["add", "add", "add", "sub", "sub", "neg", "mul", "rmul", "div", "aug"])
         pick = lambda: r.randrange(nreg) if r.random() < 0.6 else r.randrange(min(nreg, nleaves))
-        if kind in ("add", "sub"):
+        if kind == "aug":
+            ops.append(gen_aug(ctx, exact, nleaves, nreg, pick))
+        elif kind in ("add", "sub"):
             ops.append([kind, pick(), pick()])
         elif kind == "neg":
             ops.append([kind, pick()])
@@ -920,9 +1054,11 @@ def gen_grid_history(ctx):
     ops = []
     nreg = nleaves
     for _ in range(nops):
-        kind = r.choice(["add", "add", "sub", "sub", "neg", "mul", "rmul", "div", "snap", "lc", "lc", "avg"])
+        kind = r.choice(["add", "add", "sub", "sub", "neg", "mul", "rmul", "div", "snap", "lc", "lc", "avg", "aug"])
         pick = lambda: r.randrange(nreg) if r.random() < 0.6 else r.randrange(min(nreg, nleaves))
-        if kind in ("add", "sub"):
+        if kind == "aug":
+            ops.append(gen_aug(ctx, exact, nleaves, nreg, pick)); nreg += 1
+        elif kind in ("add", "sub"):
             ops.append([kind, pick(), pick()]); nreg += 1
         elif kind == "neg":
             ops.append([kind, pick()]); nreg += 1
@@ -977,6 +1113,9 @@ class Run:
         self.outside = None        # why the history was cut short (an operation outside the model), if it was
         self.reg_exact = []        # per register: is every float operation behind it exact?
         self.op_exact = []         # per op: exactness of its result(s)
+        self.redirect = {}         # register -> the register that replaced it (its object was modified in place by `x op= y`)
+        self.aug_ops = 0           # successful augmented assignments
+        self.aug_in_place = 0      # ... of which the code worked in place (returned the very object)
 
 
 def run_history(hist, ctx=None):
@@ -1000,18 +1139,26 @@ def run_history(hist, ctx=None):
         first = snaps()
         run.reg_exact = [bool(hist["exact"])] * len(run.regs)
         for op in hist["ops"]:
-            op = clamp(op, len(run.regs))
+            op = clamp(op, len(run.regs), run.redirect)
             run.ops.append(op)
             run.op_exact.append(result_exact(run, op))
             thunk, conts = prepare(run.regs, op)
             cview = containers_view(conts)
             rej = expected_rejection(hist["cls"], op, run.regs) or outside_quantifier(op)
             before = snaps()
+            pre = freeze(run.regs[op[1]]) if is_aug(op) else None
             try:
                 res = thunk()
                 out = None
             except Exception as e:
                 res, out = None, ("err", errtag(e))
+            dead = []
+            if pre is not None and out is None and hasattr(res, "hom_deg"):
+                # `x op= y`: the object x itself may be modified (then it IS the result and its old registers are retired,
+                # holding the frozen old value from here on); every OTHER live object must be observably unchanged
+                dead = settle_aug(run.regs, res, pre)
+                run.aug_ops += 1
+                run.aug_in_place += 1 if dead else 0
             after = snaps()[:len(before)]
             obs, ronly, prv = snapshots_diff(before, after)
             run.private_changes += len(prv)
@@ -1040,6 +1187,8 @@ def run_history(hist, ctx=None):
                     for x in new:
                         run.shared += shares_structure(x, run.regs)
                     idx = list(range(len(run.regs), len(run.regs) + len(new)))
+                    for j in dead:
+                        run.redirect[j] = idx[0]
                     run.regs.extend(new)
                     run.reg_exact.extend([run.op_exact[-1]] * len(new))
                     out = ("ok", idx, isinstance(res, list))
@@ -1088,19 +1237,26 @@ def result_exact(run, op):
     return True
 
 
-def clamp(op, nreg):
-    """register indices were drawn optimistically; fold them into what exists"""
+def clamp(op, nreg, redirect=None):
+    """register indices were drawn optimistically; fold them into what exists, and follow `redirect`: a register whose object
+    an augmented assignment modified in place is never an operand again, its name now means the new value"""
+    def ix(i):
+        i %= nreg
+        while redirect and i in redirect:
+            i = redirect[i]
+        return i
     name = op[0]
+    tail = ["aug"] if is_aug(op) else []
     if name in ("add", "sub"):
-        return [name, op[1] % nreg, op[2] % nreg]
+        return [name, ix(op[1]), ix(op[2])] + tail
     if name == "neg":
-        return [name, op[1] % nreg]
+        return [name, ix(op[1])]
     if name in ("mul", "rmul", "div"):
-        return [name, op[1] % nreg, op[2]]
+        return [name, ix(op[1]), op[2]] + tail
     if name in ("snap", "avg"):
-        return [name, [i % nreg for i in op[1]]] + list(op[2:])
+        return [name, [ix(i) for i in op[1]]] + list(op[2:])
     if name == "lc":
-        return [name, [i % nreg for i in op[1]]] + list(op[2:])
+        return [name, [ix(i) for i in op[1]]] + list(op[2:])
     return op
 
 
@@ -1531,6 +1687,17 @@ def placeholder_violation(ctx, hist):
                               reproducer=reproducer(h2))
 
 
+def describe_op(op):
+    """an operation as the Python statement it stands for (registers r0, r1, ...)"""
+    if op is None:
+        return ""
+    sym = {"add": "+", "sub": "-", "mul": "*", "div": "/"}
+    if is_aug(op):
+        rhs = "r%d" % op[2] if op[0] in ("add", "sub") else repr(scalar_of(op[2]))
+        return "(r%d %s= %s)" % (op[1], sym[op[0]], rhs)
+    return "(%s)" % op[0]
+
+
 def reproducer(hist, upto=None):
     return ("from harness.props import c09; run = c09.run_history(%r); print(run.outcomes, run.untouched)"
             % ({"cls": hist["cls"], "mode": hist["mode"], "exact": hist["exact"], "leaves": hist["leaves"],
@@ -1852,6 +2019,11 @@ def run(ctx):
         ctx.count("histories:" + hist["cls"] + (":exact-arith" if hist["exact"] else ":tolerance"))
         if hist.get("nonzero_ends"):
             ctx.count("histories:exact:hand-made critical points with non-zero end ordinates")
+        if hist["mode"] == "offset":
+            ctx.count("histories:exact:large common offset (1e12..1e13), small non-dyadic bars")
+        if runx.aug_ops:
+            ctx.count("augmented_assignment:%s:%s" % (hist["cls"], "in place" if runx.aug_in_place else "new object (binary operator)"),
+                      runx.aug_ops)
         ctx.count("history_len:%d" % len(runx.ops))
         if runx.outside:
             ctx.count("history_cut:outside_model:" + runx.outside)
@@ -1876,10 +2048,12 @@ def run(ctx):
                     if zero_row:
                         ctx.test("grid_landscape_without_visible_bar_is_zero_function", True)
         if not runx.untouched:
-            ctx.violation("an operand changed during operation %s of a %s history: [register, public attribute] %r has another VALUE "
+            top = runx.ops[runx.touched_at] if runx.touched_at is not None and 0 <= runx.touched_at < len(runx.ops) else None
+            ctx.violation("an operand changed during operation %s %s of a %s history: [register, public attribute] %r has another VALUE "
                           "afterwards (every live landscape's public attributes / represented function and the argument lists are "
-                          "compared before/after each operation, the leaves again at the end)"
-                          % (runx.touched_at, hist["cls"], runx.touched_what[:6]),
+                          "compared before/after each operation, the leaves again at the end; after an augmented assignment "
+                          "`x op= y` every object other than x itself)"
+                          % (runx.touched_at, describe_op(top), hist["cls"], runx.touched_what[:6]),
                           {"history": jsonable_hist(hist), "failure": {"law": "operands untouched", "op_index": runx.touched_at,
                                                                        "changed": runx.touched_what[:20]}},
                           found_input=True, reproducer=reproducer(hist))
@@ -1989,7 +2163,7 @@ MANIFEST = {
             "and a different behaviour there, like a different exception class, is a correspondence break only); snap_pl is np.interp of every depth at "
             "the common nodes and np.interp is the linear interpolant with constant extension; lc_approx equals the same combination "
             "of the re-sampled values; average_approx is lc with 1/n, i.e. the mean. The model is tied to the code on every run by "
-            "replaying generated histories (0-12 operations on shared operands, results reused) of the real operators at Rat from "
+            "replaying generated histories (0-12 operations on shared operands, results reused, augmented assignments included) of the real operators at Rat from "
             "the leaves: breakpoint lists exactly, ordinates/samples exactly on dyadic histories and within 1e-9 otherwise, error "
             "kinds exactly; and the statement's laws are evaluated on the real code alone with exact rationals. "
             "NOT covered, and violated by the code: the part 'arbitrary critical points' of the quantifier. For hand-made critical points "
@@ -2003,7 +2177,9 @@ MANIFEST = {
     "note": "Trusted: Lean kernel + Mathlib, axioms propext/Classical.choice/Quot.sound; the correspondence harness and the compiled driver "
             "executable (compiled by Lean's compiler, not checked by the kernel); np.interp/np.linspace/"
             "np.pad/np.sum(object array) semantics as modelled. [T] only: 'operands observably unchanged' (the public attributes of every "
-            "live landscape and the argument lists compared by value around every operation and at the end of every history; new private "
+            "live landscape and the argument lists compared by value around every operation and at the end of every history - after an "
+            "augmented assignment `x op= y` every object other than x itself, so an in-place scaling of a sum that shares depth lists with "
+            "its operands is a failing input; new private "
             "attributes such as caches are ignored, byte-level differences of equal values are a correspondence break only; "
             "aliasing is invisible to a functional model, see also C19; for leaves built with compute=False the represented function is "
             "compared instead of the cache attributes critical_pairs/values/max_depth, which the first operation fills) and float rounding "
